@@ -286,6 +286,38 @@ pub fn run_c08(out: &mut Out, tier: &str, seed: u64) {
         out.hit(&format!("{}.incremental-differs-from-oneshot", what), format!("length {} split {:?}", n, parts),
             json!({"op": format!("{}.chunks", what), "key": hx(&key32), "msg": hx(&data[..*n]), "split": parts}));
     }
+    // adversarial Poly1305 operands fed in pieces: r = 1 or 2, blocks from a small alphabet that leaves
+    // unpropagated carries in the limbs, every split position
+    {
+        let alphabet: Vec<[u8; 16]> = vec![[0xff; 16], [0; 16], { let mut x = [0u8; 16]; x[0] = 1; x }, (u128::MAX - 3).to_le_bytes(), { let mut x = [0xffu8; 16]; x[15] = 0x7f; x }];
+        let mut adv = 0u64;
+        for r in [1u8, 2u8] {
+            let mut key = [0u8; 32]; key[0] = r; key[16..].copy_from_slice(&[0x5a; 16]);
+            let n = alphabet.len();
+            for idx in 0..(n * n * n * n) {
+                let mut msg: Vec<u8> = vec![];
+                let mut t = idx;
+                for _ in 0..4 { msg.extend_from_slice(&alphabet[t % n]); t /= n; }
+                msg.extend_from_slice(&[0xff, 0x01, 0x80, 0x00, 0x7f][..(idx % 6).min(5)]);
+                let one = d_onetimeauth(&msg, &key);
+                if one != sodium::onetimeauth(&msg, &key) { out.hit("onetimeauth.carry.differs-from-libsodium", format!("r={} idx {}", r, idx), json!({"op":"onetimeauth.mac","key":hx(&key),"msg":hx(&msg)})); }
+                for cut in 0..=msg.len() {
+                    adv += 1;
+                    if d_onetimeauth_chunks(&key, &[&msg[..cut], &msg[cut..]]) != one {
+                        out.hit("onetimeauth.incremental-differs-from-oneshot", format!("adversarial r={} message {} split at {}", r, hx(&msg), cut),
+                            json!({"op":"onetimeauth.chunks","key":hx(&key),"msg":hx(&msg),"split":[cut, msg.len() - cut]}));
+                        break;
+                    }
+                }
+                if idx % 97 == 0 {
+                    let cut = (idx / 97 * 7) % (msg.len() + 1);
+                    out.case("onetimeauth.chunks", &[b(&key), chunk_tok(&[&msg[..cut], &msg[cut..]])], &ok1(&d_onetimeauth_chunks(&key, &[&msg[..cut], &msg[cut..]])), true);
+                }
+            }
+        }
+        out.search_evaluations += adv;
+        out.notes.insert("adversarial_poly1305_splits".into(), json!(adv));
+    }
     // object API incremental interfaces
     {
         use dryoc::auth::Auth;
